@@ -242,11 +242,88 @@ def check_return_ranges(ck, P, rid):
                 break
         inst = "return@RandomRange"
         if bad is None:
+            # the interval argument above treats doubles as reals.  Evaluate the returned expression once more in IEEE double arithmetic at the
+            # two extreme values Random() can return (from its bit pattern, C18.1): an addition inside the floor can round up to max + 1
+            rcalls = [c for c in rets[0].walk() if c.k == "CallExpr" and c.callee == "Random"]
+            riv = E.ev(rcalls[0], f) if rcalls else None
+            extremes = (5.421010862427522e-20, 0.9999999999999999)      # what C18.1 derives from Random()'s bit pattern
+            if riv is not None and riv.hi <= 1.0 and riv.lo >= 0.0:
+                hi = riv.hi if not riv.hi_open else math.nextafter(riv.hi, 0.0)
+                extremes = (riv.lo if riv.lo > 0 or not riv.lo_open else math.nextafter(0.0, 1.0), hi)
+            for (a, b) in pairs + [(2, 3), (10, 20), (1 << 30, (1 << 30) + 1), (1, 6)]:
+                for r in extremes:
+                    v = _fev(rets[0].children[0], {pmin: a, pmax: b, "Random()": r})
+                    if v is None:
+                        continue
+                    if not (a <= v <= b) and bad is None:
+                        bad = ("violated", "RandomRange(%d, %d) returns %d when Random() = %r (evaluated in double arithmetic: a sum inside the rounding is itself rounded)" % (a, b, v, r))
+        if bad is None:
             ck.holds(rid, inst, rets[0].where, "for the representative argument pairs %s the result interval is within [min,max] for every generator state" % pairs, cfg)
         elif bad[0] == "violated":
             ck.violated(rid, inst, rets[0].where, bad[1] + ": outside [min,max]", cfg)
         else:
             ck.inconclusive(rid, inst, rets[0].where, bad[1], cfg)
+
+
+def _fev(n, env):
+    """IEEE-double evaluation of a small arithmetic expression (Python floats are doubles): parameters and Random() from env."""
+    n = X.strip(n, casts=False)
+    if n is None:
+        return None
+    c = X.const_int(n)
+    if c is not None:
+        return c
+    if n.k == "FloatingLiteral":
+        return n.d.get("val")
+    if n.k == "DeclRefExpr":
+        return env.get(n.name)
+    if n.k in ("CStyleCastExpr", "ImplicitCastExpr"):
+        v = _fev(n.children[0], env)
+        if v is None:
+            return None
+        if n.d.get("tf"):
+            return float(v)
+        ti = n.d.get("ti")
+        if ti and isinstance(v, float):
+            return int(v)
+        return v
+    if n.k == "ParenExpr":
+        return _fev(n.children[0], env)
+    if n.k == "UnaryOperator" and n.op in ("-", "+"):
+        v = _fev(n.children[0], env)
+        return None if v is None else (-v if n.op == "-" else v)
+    if n.k == "CallExpr":
+        if n.callee == "Random":
+            return env.get("Random()")
+        a = _fev(X.callee_args(n)[0], env) if X.callee_args(n) else None
+        if a is None:
+            return None
+        if n.callee == "floor":
+            return float(math.floor(a))
+        if n.callee == "ceil":
+            return float(math.ceil(a))
+        if n.callee == "trunc":
+            return float(math.trunc(a))
+        if n.callee in ("round", "lround"):
+            return float(math.floor(a + 0.5)) if a >= 0 else -float(math.floor(-a + 0.5))
+        if n.callee == "pow" and len(X.callee_args(n)) == 2:
+            b2 = _fev(X.callee_args(n)[1], env)
+            if b2 is None:
+                return None
+            try:
+                return float(a) ** float(b2)
+            except (OverflowError, ZeroDivisionError):
+                return float("inf")
+        return None
+    if n.k == "BinaryOperator" and n.op in ("+", "-", "*", "/"):
+        a, b = _fev(n.children[0], env), _fev(n.children[1], env)
+        if a is None or b is None:
+            return None
+        if n.d.get("tf") or isinstance(a, float) or isinstance(b, float):
+            a, b = float(a), float(b)
+            return {"+": a + b, "-": a - b, "*": a * b, "/": a / b if b else None}[n.op]
+        return {"+": a + b, "-": a - b, "*": a * b, "/": (a // b if b else None)}[n.op]
+    return None
 
 
 def _ev_params(E, f, n, env):
@@ -339,3 +416,72 @@ def check_generator_isolation(ck, P, rid):
             continue
         if X.expansions(g.root, "random_u64"):
             ck.violated(rid, "draw@%s" % g.name, g.where, "%s advances a generator directly instead of drawing through RandomU64()" % g.name, cfg)
+
+
+def check_float_to_int(ck, P, rid):
+    """A double is converted to an integer type only where it is known to fit (out-of-range conversions are undefined and wrap to 0 or garbage
+    in practice).  For every such conversion in the numerical library: either an upper-bound test of the converted variable holds on every
+    path to it, or the value, evaluated in double arithmetic at the extreme draws of Random() for a few argument values, stays in range."""
+    cfg = P.config
+    n = 0
+    for f in [g for g in P.all_functions() if g.file.endswith("lib/random/random.c")]:
+        for c in f.walk():
+            if c.k not in ("CStyleCastExpr", "ImplicitCastExpr") or c.ck != "FloatingToIntegral" or not c.d.get("ti"):
+                continue
+            op = X.strip(c.children[0], casts=False)
+            tgt = c
+            while tgt is not None and tgt.id not in f.cfg.pos:
+                tgt = tgt.parent
+            if tgt is None:
+                continue
+            n += 1
+            inst = "float-to-int@%s:%s" % (f.name, X.show(op)[:30])
+            width, signed = c.d["ti"]
+            tmax = (1 << (width - (1 if signed else 0))) - 1
+            guarded = False
+            if op.k == "DeclRefExpr":
+                paths, complete = Q.path_conditions(f, tgt)
+                if complete and paths:
+                    guarded = True
+                    for conds in paths:
+                        okp = False
+                        for core, t in conds:
+                            core = X.strip(core)
+                            if core.k == "BinaryOperator" and core.op in (">", ">=", "<", "<="):
+                                l, r = X.strip(core.children[0], casts=True), X.strip(core.children[1], casts=True)
+                                if l.k == "DeclRefExpr" and l.did == op.did and ((core.op in (">", ">=") and t is False) or (core.op in ("<", "<=") and t is True)):
+                                    okp = True
+                                if r.k == "DeclRefExpr" and r.did == op.did and ((core.op in ("<", "<=") and t is False) or (core.op in (">", ">=") and t is True)):
+                                    okp = True
+                        if not okp:
+                            guarded = False
+            if guarded:
+                ck.holds(rid, inst, c.where, "converted only on paths where an upper bound of `%s` was tested" % X.show(op), cfg)
+                continue
+            # value at the extreme draws
+            expr = op
+            if op.k == "DeclRefExpr":
+                defs = [a for a in f.walk() if a.k == "BinaryOperator" and a.op == "=" and X.strip(a.children[0]).k == "DeclRefExpr" and X.strip(a.children[0]).did == op.did]
+                expr = defs[0].children[1] if len(defs) == 1 else None
+            worst = None
+            evaluated = False
+            if expr is not None:
+                params = [p_["name"] for p_ in f.params]
+                for r in (5.421010862427522e-20, 0.9999999999999999):
+                    for pv in (0.5, 1.0, 2.0, 10.0, 6, 1000000):
+                        env = {p_: pv for p_ in params}
+                        env["Random()"] = r
+                        v = _fev(expr, env)
+                        if v is None:
+                            continue
+                        evaluated = True
+                        if (v != v or v > tmax or v < -(tmax + 1)) and worst is None:
+                            worst = (r, pv, v)
+            if worst:
+                ck.violated(rid, inst, c.where, "`%s` is converted to %s without an upper-bound test on the path; with Random() = %r (arguments %s) it is %r, outside the type's range: the "
+                            "conversion is undefined and yields 0 or garbage in practice" % (X.show(op), c.t, worst[0], worst[1], worst[2]), cfg)
+            elif evaluated:
+                ck.holds(rid, inst, c.where, "in range at the extreme draws of Random() for the sampled arguments", cfg)
+            else:
+                ck.inconclusive(rid, inst, c.where, "value of `%s` not evaluable" % X.show(op), cfg)
+    ck.expect(rid, n, 2, "float-to-integer conversions in the numerical library")
